@@ -44,9 +44,16 @@ def gen_id(rng):
         if KEYWORDS and rng.random() < 0.25:
             return rng.choice(KEYWORDS)
         return rng.choice(WORDS)
-    s = word()
+    def segment():
+        # operator words as a segment of a longer identifier (X.OR, AND-1, HGNC:or): never an operator there
+        if rng.random() < 0.2:
+            return rng.choice(["AND", "OR", "and", "or", "And"])
+        return word()
+    if n == 0:
+        return word()
+    s = segment()
     for _ in range(n):
-        s += rng.choice(SPECIALS) + word()
+        s += rng.choice(SPECIALS + ["_"]) + segment()
     return s
 
 
